@@ -8,6 +8,8 @@
 //   provides metadata); minp = ConnectionList::min_size (drives the PEX enable/disable toggle).
 // Ops (peer index i in 0..5, local address 127.0.0.(2+i); each index connects at most once):
 //   c<i>            connect, BitTorrent handshake with the extension bit + keep-alive
+//   e<i>            the same over an MSE-negotiated RC4 stream (harness/common/mseinit.h): everything both ways is encrypted
+//   w<i>:drip<k>    unlimited again, reached through partial writes of at most k bytes each
 //   b<i>:<item>/<item>/..  a batch of extended messages sent in ONE segment (< 500 bytes):
 //                   H<fields>   extension handshake (id 0); fields comma separated, each optional:
 //                               x<Z> m::ut_pex, m<Z> m::ut_metadata, p<Z> p, s<Z> metadata_size
@@ -28,6 +30,7 @@
 
 #include "common/session.h"
 #include "common/wirepeer.h"
+#include "common/mseinit.h"
 #include "download/download_main.h"
 #include "download/download_wrapper.h"
 #include "protocol/extensions.h"
@@ -119,8 +122,12 @@ static std::string show_ext(int idx, const WireMsg& m, uint16_t listen_port) {
 
 struct Peer {
   std::unique_ptr<WirePeer> w;
+  std::unique_ptr<MseInitiator> mse;   // e<i>: RC4 stream both ways after an MSE negotiation
   uint16_t port = 0;
   bool eof_reported = false;
+  bool enc() const { return (bool)mse; }
+  WirePeer& rx() { return mse ? mse->plain : *w; }                              // decrypted receive side
+  void send(const std::string& b) { w->send_bytes(mse ? mse->seal(b) : b); }    // encrypt exactly once
 };
 
 static const int NPEERS = 6;
@@ -232,7 +239,8 @@ static std::string run_case(Session& S, const std::string& line) {
       Peer& P = pk.second;
       if (!P.w) continue;
       WireMsg m;
-      while (P.w->next_message(m))
+      if (P.mse) P.mse->absorb();
+      while (P.rx().next_message(m))
         if (m.id == WirePeer::EXTENDED) ev += show_ext(pk.first, m, S.listen_port()) + " ";
       if (P.w->eof && !P.eof_reported) {
         P.eof_reported = true;
@@ -271,7 +279,7 @@ static std::string run_case(Session& S, const std::string& line) {
       char k = op[0];
       if (k == 't') {
         for (auto& pk : peers)
-          if (pk.second.w && pk.second.w->fd != -1) pk.second.w->send_bytes(WirePeer::keepalive());
+          if (pk.second.w && pk.second.w->fd != -1) pk.second.send(WirePeer::keepalive());
         pump_all();
         to_pex_tick();
         pump_all();
@@ -279,7 +287,7 @@ static std::string run_case(Session& S, const std::string& line) {
         int idx = op[1] - '0';
         if (idx < 0 || idx >= NPEERS) return "BADCASE";
         std::string arg = op.size() > 3 ? op.substr(3) : "";
-        if (k == 'c') {
+        if (k == 'c' || k == 'e') {
           if (peers.count(idx)) return "BADCASE";   // normal form: an index connects at most once
           Peer& P = peers[idx];
           P.w = std::make_unique<WirePeer>();
@@ -288,10 +296,15 @@ static std::string run_case(Session& S, const std::string& line) {
           P.port = P.w->local_port();
           char idbuf[21];
           snprintf(idbuf, sizeof idbuf, "-LV0020-%010u%02d", g_case_no, idx);
-          P.w->send_bytes(WirePeer::handshake(info_hash, std::string(idbuf, 20), WirePeer::reserved_ext()) + WirePeer::keepalive());
+          if (k == 'e') {
+            P.mse = std::make_unique<MseInitiator>(*P.w, 5000 + g_case_no * 8 + idx);
+            if (!P.mse->negotiate(S, info_hash)) return "ERR:mse";
+          }
+          P.send(WirePeer::handshake(info_hash, std::string(idbuf, 20), WirePeer::reserved_ext()) + WirePeer::keepalive());
           pump_all();
+          if (P.mse) P.mse->absorb();
           HandshakeIn hs;
-          if (!P.w->take_handshake(hs) || hs.info_hash != info_hash) ev += "NOHANDSHAKE ";
+          if (!P.rx().take_handshake(hs) || hs.info_hash != info_hash) ev += "NOHANDSHAKE ";
         } else if (k == 'b') {
           if (!peers.count(idx) || !peers[idx].w) return "BADCASE";
           std::string batch;
@@ -340,7 +353,7 @@ static std::string run_case(Session& S, const std::string& line) {
             p = q + 1;
           }
           if (batch.size() >= 500) return "BADCASE";
-          if (peers[idx].w->fd != -1) peers[idx].w->send_bytes(batch);   // after d<i>: nothing to send to
+          if (peers[idx].w->fd != -1) peers[idx].send(batch);   // after d<i>: nothing to send to
           pump_all();
         } else if (k == 'd') {
           if (peers[idx].w) { peers[idx].w->close_all(); peers[idx].eof_reported = true; }
@@ -349,7 +362,20 @@ static std::string run_case(Session& S, const std::string& line) {
           // w<i>:0  the library-side socket of peer i accepts no more bytes (send() -> EAGAIN)
           // w<i>:inf  unlimited again
           if (!peers.count(idx)) return "BADCASE";
-          Session::set_send_budget(peers[idx].port, arg == "0" ? 0 : -1);
+          if (arg.compare(0, 4, "drip") == 0) {
+            // unlimited in the end, but the library gets there through many partial writes of <= k bytes
+            int64_t kq = std::stol(arg.substr(4));
+            if (kq < 1) return "BADCASE";
+            Session::set_send_budget(peers[idx].port, 0);
+            for (int rounds = 0, quiet = 0; rounds < 20000 && quiet < 2; rounds++) {
+              Session::set_send_budget(peers[idx].port, kq);
+              pump_all();
+              quiet = Session::send_budget(peers[idx].port) == kq ? quiet + 1 : 0;
+            }
+            Session::set_send_budget(peers[idx].port, -1);
+          } else {
+            Session::set_send_budget(peers[idx].port, arg == "0" ? 0 : -1);
+          }
           pump_all();
         } else {
           return "BADCASE";
